@@ -81,7 +81,7 @@ def c17_divergence(pool, seed, tid, bt, table) -> dict:
     outcomes = table.outcomes[tid]
     ref = None
     for oc, wits in outcomes.items():
-        if any(w["w"] == 0 for w in wits):
+        if any(w.get("pristine") for w in wits):
             ref = oc
     if ref is None:
         ref = max(outcomes, key=lambda o: len(outcomes[o]))
